@@ -185,6 +185,8 @@ func (f *filler) fill(v reflect.Value, path string) {
 			if f.want(k) && f.v.Cls != "zero" {
 				fv.Set(reflect.New(ft.Type.Elem()))
 				f.fill(fv.Elem(), p)
+				f.sent[p+"/@group"] = map[string]any{"present": true} // the grouped AVP itself
+
 			}
 		case kind == "Unsigned32" || kind == "Unsigned64" || kind == "Integer32" || kind == "Integer64" || kind == "Enumerated":
 			i64 := int64(f.leaf)
@@ -280,7 +282,11 @@ func flatten(v reflect.Value, path string, out map[string]any) {
 		switch {
 		case ft.Type.Kind() == reflect.Ptr && ft.Type.Elem().Kind() == reflect.Struct && ft.Type.Elem() != reflect.TypeOf(datatype.Grouped{}):
 			if !fv.IsNil() {
+				before := len(out)
 				flatten(fv.Elem(), p, out)
+				_ = before
+				// a group received as present -- even with no member value -- is reported: an absent group must stay absent
+				out[p+"/@group"] = map[string]any{"present": true}
 			}
 		case kind == "Unsigned32" || kind == "Unsigned64":
 			if fv.Uint() != 0 {
